@@ -587,6 +587,95 @@ example :
     separate [⟨1, true, false, true, none⟩, ⟨2, true, false, false, none⟩, ⟨3, true, false, false, none⟩]
       [10] [] false false true = .ok ([some 10], []) := ⟨rfl, rfl, rfl, rfl⟩
 
+
+/-! ## which opset the exported model imports (`_set_default_opset`, `append_node`, `_to_model_proto`) -/
+
+/-- **translated_import_is_class_version.**  Whatever `default_opset=` was declared (or none) and whatever the
+body does: if translation succeeds, then for *every* call `opsetN.Op(...)` of a default-domain opset class in
+the body, the function's `''` import is `N` — the version of the class the call was written with (and with
+which eager mode evaluates it, `methods_mirror`). -/
+theorem translated_import_is_class_version (declared : Option (Nat × Nat)) (evs : List Ev) (st : ConvState)
+    (h : convert declared evs = .ok st) (v : Nat) (hv : Ev.call 1 v ∈ evs) :
+    findTok 1 st.imports = some v :=
+  (convRun_props (st := ⟨_, [], []⟩) (by intro v0 h0; simp [findTok] at h0) h).2.2.1 v hv
+
+/-- **two_default_domain_versions_refused.**  A body that calls two default-domain opset classes of different
+versions is never translated, for any declared default opset: the converter stops with "Two distincts opset
+were used".  (Other domains only warn: the first version wins — modelled in `appendNode`, checked by the tie.) -/
+theorem two_default_domain_versions_refused (declared : Option (Nat × Nat)) (evs : List Ev) (v₁ v₂ : Nat)
+    (h₁ : Ev.call 1 v₁ ∈ evs) (h₂ : Ev.call 1 v₂ ∈ evs) (hne : v₁ ≠ v₂) :
+    convert declared evs = .error .twoOpsets := by
+  have hinv : ConvInv ⟨(match declared with | some x => some x | none => findOnnxOpset evs), [], []⟩ := by
+    intro v0 h0; simp [findTok] at h0
+  cases hc : convert declared evs with
+  | ok st =>
+    have e₁ := translated_import_is_class_version declared evs st hc v₁ h₁
+    have e₂ := translated_import_is_class_version declared evs st hc v₂ h₂
+    rw [e₁] at e₂
+    exact absurd (Option.some.inj e₂) hne
+  | error err =>
+    unfold convert at hc
+    have : err = .twoOpsets := by
+      refine convRun_error hinv ?_ hc
+      cases declared with
+      | some x => rfl
+      | none => exact findOnnxOpset_some h₁
+    rw [this]
+
+/-- **exported_import_means_class.**  `to_model_proto(opset_version=opt)` of a translated function whose body
+calls a default-domain opset class of version `v`: the option is ignored — the exported imports are the
+function's, and the `''` import is `v` for every `opt` and every installed onnx. -/
+theorem exported_import_means_class (declared : Option (Nat × Nat)) (evs : List Ev) (st : ConvState)
+    (h : convert declared evs = .ok st) (v : Nat) (hv : Ev.call 1 v ∈ evs) (opt : Option Nat) (current : Nat) :
+    exportImports st.imports opt current = st.imports ∧
+      findTok 1 (exportImports st.imports opt current) = some v := by
+  have hi := translated_import_is_class_version declared evs st h v hv
+  unfold exportImports
+  rw [hi]
+  exact ⟨rfl, hi⟩
+
+/-- **option_applies_only_without_default_domain.**  If the body consists of calls of non-default-domain opset
+classes only (no `''` call, nothing translated through the default opset), no `''` import is inferred, and the
+exported model imports `''` at the `opset_version` option if given, else at the installed `onnx_opset_version()`
+— appended after the function's own imports, which are unchanged. -/
+theorem option_applies_only_without_default_domain (declared : Option (Nat × Nat)) (evs : List Ev)
+    (st : ConvState) (h : convert declared evs = .ok st)
+    (hno : ∀ e ∈ evs, ∃ d v, e = Ev.call d v ∧ d ≠ 1) (opt : Option Nat) (current : Nat) :
+    exportImports st.imports opt current =
+      st.imports ++ [(1, match opt with | some k => k | none => current)] := by
+  have hnone : findTok 1 st.imports = none := by
+    cases hf : findTok 1 st.imports with
+    | none => rfl
+    | some w =>
+      exfalso
+      have hm := (convRun_props (st := ⟨_, [], []⟩) (by intro v0 h0; simp [findTok] at h0) h).2.2.2
+        (1, w) (findTok_mem hf)
+      rcases hm with h1 | h1 | h1
+      · cases h1
+      · rcases hno _ h1 with ⟨d, v, he, hd⟩
+        simp only [Ev.call.injEq] at he
+        exact hd he.1.symm
+      · rcases hno _ h1 with ⟨d, v, he, _⟩
+        cases he
+  unfold exportImports
+  simp only [hnone]
+  cases opt <;> rfl
+
+/-- non-vacuity (domains: `''` = 1, `ai.onnx.ml` = 1668935622595193164688748): `opset_ai_onnx_ml3.Scaler` then
+`opset11.Relu` then `opset_ai_onnx_ml2.Binarizer`, no declared default: imports `[ml 3, '' 11]`, one version
+conflict warning, option ignored; two `ml3` calls only: the option (15) applies; `opset11` then `opset13`: refused;
+`default_opset=opset18` with `opset11.Relu`: refused; `-x` with nothing to infer a default from: refused -/
+example :
+    (convert none [.call 1668935622595193164688748 3, .call 1 11, .call 1668935622595193164688748 2]).map
+        (fun st => (exportImports st.imports (some 15) 27, st.conflicts)) =
+      .ok ([(1668935622595193164688748, 3), (1, 11)], [(1668935622595193164688748, 3, 2)]) ∧
+    (convert none [.call 1668935622595193164688748 3, .call 1668935622595193164688748 3]).map
+        (fun st => exportImports st.imports (some 15) 27) = .ok [(1668935622595193164688748, 3), (1, 15)] ∧
+    convert none [.call 1 11, .call 1 13] = .error .twoOpsets ∧
+    convert (some (1, 18)) [.call 1 11] = .error .twoOpsets ∧
+    convert none [.call 1668935622595193164688748 3, .implicit] = .error .noDefault :=
+  ⟨rfl, rfl, rfl, rfl, rfl⟩
+
 /-! ### non-vacuity of the history / domain theorems (`enc "BitwiseAnd"` = 1522547307904140230880868,
 `enc "ai.onnx.ml"` = 1668935622595193164688748, `enc "LabelEncoder"` = 102866753728027417819308385650,
 `enc "Abs"` = 21062259, `enc "my.domain"` = 6741793614061243558254, `enc "Opset"` = 1440700654964) -/
